@@ -484,7 +484,11 @@ def run_real(case):
             if not r or r[0][0] != 'DATA':
                 out.append(Disc('real.cookie.no-challenge', 'server answered %r' % (r,)))
                 return out
-            ctx, cid, schal = binascii.unhexlify(r[0][1].strip()).split()
+            try:
+                ctx, cid, schal = binascii.unhexlify(r[0][1].strip()).split()
+            except Exception:
+                out.append(Disc('real.cookie.malformed-challenge', 'server sent %r' % (r,)))
+                return out
             cookie = _read_cookie(scratch, ctx, cid)
             if cookie is None:
                 out.append(Disc('real.cookie.keyring-entry-missing', 'context %r id %r' % (ctx, cid)))
@@ -508,19 +512,48 @@ def run_real(case):
                 resp = good
             elif v == 'hash-of-nothing':
                 resp = cchal + b' ' + binascii.hexlify(hashlib.sha1(b'').digest())
+            elif v == 'concurrent':
+                # another connection runs its own exchange (challenge, right answer, BEGIN) while ours is pending;
+                # both present the right cookie, both must be accepted
+                log2 = _newlog()
+                srv2 = _real_server('none', scratch, log2)
+                N.deliver(srv2, b'\0')
+                r2 = _exchange(srv2, b'AUTH DBUS_COOKIE_SHA1 ' + binascii.hexlify(ident.encode()))
+                try:
+                    ctx2, cid2, schal2 = binascii.unhexlify(r2[0][1].strip()).split()
+                    cookie2 = _read_cookie(scratch, ctx2, cid2)
+                    good2 = binascii.hexlify(hashlib.sha1(schal2 + b':' + cchal + b':' + cookie2).digest())
+                except Exception:
+                    out.append(Disc('real.cookie.no-challenge', 'concurrent connection: server answered %r' % (r2,)))
+                    return out
+                if cid2 == cid:
+                    out.append(Disc('real.cookie.id-reused-by-concurrent-exchange', 'both exchanges were given cookie id %r' % cid))
+                r2 = _exchange(srv2, b'DATA ' + binascii.hexlify(cchal + b' ' + good2))
+                if not r2 or r2[0][0] != 'OK':
+                    out.append(Disc('real.cookie.concurrent-exchange-refused', 'second connection: %r' % (r2,)))
+                _exchange(srv2, b'BEGIN')
+                cookie = _read_cookie(scratch, ctx, cid) or cookie      # our own cookie must still be there
+                if _read_cookie(scratch, ctx, cid) is None:
+                    out.append(Disc('real.cookie.lost-by-concurrent-exchange', 'cookie %r vanished from the keyring' % cid))
+                resp = cchal + b' ' + good
             elif v == 'replay':
                 # response computed for an earlier exchange on another connection
                 log2 = _newlog()
                 srv2 = _real_server('none', scratch, log2)
                 N.deliver(srv2, b'\0')
                 r2 = _exchange(srv2, b'AUTH DBUS_COOKIE_SHA1 ' + binascii.hexlify(ident.encode()))
-                ctx2, cid2, schal2 = binascii.unhexlify(r2[0][1].strip()).split()
+                try:
+                    ctx2, cid2, schal2 = binascii.unhexlify(r2[0][1].strip()).split()
+                    assert r2[0][0] == 'DATA'
+                except Exception:
+                    out.append(Disc('real.cookie.no-challenge', 'second connection: server answered %r' % (r2,)))
+                    return out
                 cookie2 = _read_cookie(scratch, ctx2, cid2)
                 resp = cchal + b' ' + binascii.hexlify(hashlib.sha1(schal2 + b':' + cchal + b':' + cookie2).digest())
                 _exchange(srv2, b'CANCEL')
             else:
                 raise ValueError(v)
-            should = v == 'right'
+            should = v in ('right', 'concurrent')
             if v == 'non-hex':
                 r = _exchange(srv, b'DATA zz')
             else:
@@ -556,7 +589,7 @@ def run_real(case):
     return out
 
 
-COOKIE_VARIANTS = ['right', 'right', 'wrong-cookie', 'wrong-challenge', 'swapped', 'truncated', 'empty', 'one-field',
+COOKIE_VARIANTS = ['right', 'right', 'concurrent', 'wrong-cookie', 'wrong-challenge', 'swapped', 'truncated', 'empty', 'one-field',
                    'hash-of-nothing', 'replay']
 
 
